@@ -5,6 +5,8 @@
     store P  "things"  (base path ["u"]): name (non-nullable unique index), roles (set index),
                         ref (nullable fk index P.ref -> P.backrefs, restrict on delete)
     store C  plain child of P (path ["ext"]): rank
+    custom boltz.Constraint implementations registered with AddConstraint on P and on C (after the
+    built-in indexes), which veto chosen (stage, id) pairs through ctx.ErrHolder.SetError
   The database is abstracted to the entity table; every index is a function of it (that the real
   index buckets are, is the subject of C03/C04 — here the harness compares the leaf dump of the real
   database with the rendering of this table after every committed transaction).
@@ -117,9 +119,20 @@ def view (σ : StoreId) (db : Db) (id : String) : Option EntView :=
     | .P => some (.parent id e.f)
     | .C => e.child.map fun r => .child id e.f r
 
+/-- the three calls an Indexer makes on its constraints (boltz.Constraint) -/
+inductive Stage | beforeUpdate | afterUpdate | beforeDelete
+  deriving DecidableEq, Repr, Inhabited
+
+/-- a custom boltz.Constraint registered with `store.AddConstraint` (appended to the store's
+    Indexer.constraints, i.e. after the built-in indexes): in ProcessBeforeUpdate / ProcessAfterUpdate /
+    ProcessBeforeDelete it calls `ctx.ErrHolder.SetError` for the listed (stage, row id) pairs -/
+abbrev IxReg := List (Stage × String)
+
 inductive Err
   | blankId | alreadyExists | notFound | dup | nullName | key | fkMissing | refExists
   | veto (store : StoreId) (reg : Nat)
+  /-- raised through the IndexingContext's error holder by the custom index-stage constraint `reg` of `store` -/
+  | ixVeto (store : StoreId) (reg : Nat)
   | caller (tag : Nat)
   | preCommit (tag : Nat)
   | parse | load | persist
@@ -179,6 +192,11 @@ structure CrudReturns where
   preCommitLoop : Ret
   /-- fireParentEvent: `return parentEntityChangeFlow.fireEvents()` -/
   parentEventReturn : Ret
+  /-- PersistContext.GetParentContext: `result.Bucket.ErrorHolderImpl = ctx.Bucket.ErrorHolderImpl` (the
+      parent bucket records into the holder of the child bucket, which already carries whatever
+      ProcessBeforeUpdate recorded).  false: the assignment is the other way round — the child bucket
+      adopts the fresh holder of the parent bucket and what was recorded before is dropped -/
+  persistSharesHolder : Bool
   deriving DecidableEq, Repr
 
 /-- the table the property needs: every tested error is returned, final returns hand back the
@@ -196,7 +214,7 @@ def expectedReturns : CrudReturns :=
     deleteWhereQuery := .propagate, deleteWhereDelete := .propagate,
     pdcInit := .propagate, pdcFinalHolder := true,
     fireEventsVeto := .propagate, queueAfterVeto := true, preCommitLoop := .propagate,
-    parentEventReturn := .propagate }
+    parentEventReturn := .propagate, persistSharesHolder := true }
 
 inductive Style | typed | func | untyped | idOnly
   deriving DecidableEq, Repr
@@ -217,11 +235,18 @@ structure Env where
   /-- number of Db.AddTxCompleteListener registrations -/
   txListeners : Nat
   t : CrudReturns
+  /-- custom index-stage constraints (AddConstraint) of the parent / the child store, in registration order -/
+  ixP : List IxReg := []
+  ixC : List IxReg := []
   deriving Repr
 
 def Env.regs (env : Env) : StoreId → List Reg
   | .P => env.regsP
   | .C => env.regsC
+
+def Env.ix (env : Env) : StoreId → List IxReg
+  | .P => env.ixP
+  | .C => env.ixC
 
 /-- EntityChangeState -/
 structure Flow where
@@ -240,6 +265,22 @@ structure PreCall where
   kind : Kind
   id : String
   parentEvent : Bool
+  deriving DecidableEq, Repr
+
+/-- a ProcessBeforeUpdate / ProcessAfterUpdate / ProcessBeforeDelete call seen by a custom index-stage
+    constraint (inside the transaction) -/
+structure IxCall where
+  store : StoreId
+  reg : Nat
+  stage : Stage
+  id : String
+  isCreate : Bool
+  deriving DecidableEq, Repr
+
+/-- what the registered constraints see inside the transaction, in call order -/
+inductive LogItem
+  | pre (c : PreCall)
+  | ix (c : IxCall)
   deriving DecidableEq, Repr
 
 /-- entries of the bbolt transaction's OnCommit list -/
@@ -307,7 +348,7 @@ inductive Step
 structure TxSt where
   db : Db
   queue : List QItem
-  preLog : List PreCall
+  preLog : List LogItem
   /-- ghost: every error raised by a validation, the storage layer, an index, a constraint — whether
       or not the Go code hands it on -/
   raised : List Err
